@@ -47,6 +47,7 @@ def build(tier, rnd):
         for i in range(5000):
             st = g.statement(rnd.choice([2, 3, 3, 4]))
             out.append((("random", i), st, ["ansi", alld[i % len(alld)], alld[(i * 7 + 3) % len(alld)]]))
+    out += same_alias_and_case_cases(9 if tier == "quick" else 60, common.env.seed() * 31 + 5)
     # statement kinds that only some dialects accept are always shown to dialects that do
     g2 = sqlgen.Gen(random.Random(99))
     for i in range(6):
@@ -54,6 +55,25 @@ def build(tier, rnd):
         out.append((("update_from", i), g2.statement(1, kinds=["update_from"]), ["postgres", "ansi", "tsql"]))
         out.append((("merge", i), g2.statement(1, kinds=["merge"]), ["ansi", "snowflake", "bigquery"]))
         out.append((("create_like", i), g2.statement(0, kinds=["create_like"]), ["mysql", "sparksql", "hive"]))
+    return out
+
+
+def same_alias_and_case_cases(n, seed):
+    """valid statements in which different sub-queries carry the same alias (each visible in its own set-operation branch only), and
+    scalar sub-queries in several THEN arms of one aliased CASE item"""
+    from checks.c02 import same_alias_cases
+    from vlib.sqlgen import Base, E, Group, Item, Select, Stmt, col
+    out = [(key, st, ds) for key, st, ds in same_alias_cases(n, seed)]
+    rnd = random.Random(seed + 7)
+    for i in range(n):
+        arms = []
+        for j in range(rnd.choice([2, 2, 3])):
+            sc = E("scalar", query=Select([Item(E("func", col(f"c_{j + 1}"), fname="max"), None)], [Group(Base(f"tb_ct{i}_{j}", rnd.choice([None, "sa"])))]))
+            sc.then_operand = True
+            arms += [col("k_1", None), sc]
+        q = Select([Item(col("c_9")), Item(E("case_multi", *arms), "v")], [Group(Base(f"tb_cf{i}"))])
+        kind = rnd.choice(["insert", "ctas", "create_view"])
+        out.append((("case_then", i), Stmt(kind, Base(f"tb_cw{i}", rnd.choice([None, "sb"])), q), ["ansi", rnd.choice(["postgres", "snowflake", "mysql", "sparksql", "tsql", "bigquery"])]))
     return out
 
 
